@@ -93,6 +93,21 @@ TABLE = {
         "Generated search (exploration): 34 call sites with a documented precondition, arguments on both sides of each boundary (counts, indices -1/0/max/max+1, 1-3 projection labels, length ratios, radii, perpendicularity deviations of either sign, chain lengths, sketch face counts, clamps/links, life-cycle order); invalid must raise, valid must not; symmetric conditions judged on both sides.",
         "Only conditions the statement lists are asserted; nothing within 10-100x of a tolerance boundary is asserted.",
     ),
+    "C09": (
+        "Hypothesis PBT; metamorphic relation: geometry after Mesh.assemble() of the transformed entity vs. an independent affine map (Rodrigues / 4x4) applied to the geometry of the untransformed entity; copy independence",
+        "Generated search (exploration): 63 entity classes (points, arrays, curves, every edge kind alone / on faces / on lofts, operations, 15 sketches, round shapes, rings, hemisphere, shell, stacks, joints) x {translate, rotate, scale, mirror, compositions of 2-3, copy}, by method call and by transform([...]) lists, origins != 0 and default, non-unit axes/normals; vertex positions, realised edge shapes (arc circle and side, control points in entry direction, labels) and Edge.length (x |ratio|) must equal the mapped originals; helpers must not mutate arguments.",
+        "After mirrors the corner numbering may legitimately be kept or swapped (both accepted). Known findings F15, F16b (transform() called directly on edge data / curves) and F10 are matched by narrow causes; a listed cause is raised only if nothing else is wrong in the case.",
+    ),
+    "C16": (
+        "Hypothesis PBT; round-trip / additivity invariants and differential against dense adaptive sampling and closed forms",
+        "Generated search (exploration): discrete, linear- and spline-interpolated, analytic, line and circle curves over 3-12 unevenly spaced points (ratio up to 20), parameter pairs in either order, near and far queries; discretize end points, interpolation through defining points, length additivity/symmetry/polyline equality, closest parameter within 1e-3 L of the dense minimum, OnCurve edges written on the curve between the vertex parameters in entry order with Edge.length = curve length.",
+        "Closest-parameter accuracy below 1e-3 of the curve length is not judged; far queries are counted only.",
+    ),
+    "C18": (
+        "Hypothesis PBT; differential against brute force over mesh.vertices; metamorphic over all 48 numberings for the viewpoint re-orienter",
+        "Generated search (exploration): meshes of boxes/cylinders/frusta/elbows in general placement, query spheres and planes with a margin rule around the decision boundary (offsets 0 / 0.3 / 3 / 30 TOL, radii just inside/outside a vertex distance); returned sets equal the brute-force sets exactly; round-shape finder equals the core / rim of the end face; re-orientation keeps the 8 points, is right-handed, front/top face the observer/ceiling, identical result for all 48 input numberings.",
+        "Cases within the margin (0.9-1.1 TOL, 1e-6 relative radius) are out of scope by construction; hexahedra limited to moderate distortion (jitter <= 0.15 edge).",
+    ),
 }
 
 GENERIC = (
